@@ -76,6 +76,7 @@ type Model struct {
 	Rebuilding bool
 	Checkpoint string
 	Dirty      bool
+	Deleted    bool // Server.Delete was called: terminal (only a pending Release remains)
 }
 
 func NewModel(sectors int) *Model {
